@@ -78,6 +78,11 @@ public:
     explicit World(const Plan& p);
     ~World();
     void run();
+    // pieces of run() for runs that are started on one thread and continued on another (threads.cpp)
+    void runOps(size_t fromOp, size_t toOp);
+    void finishRun();
+    size_t deliverDue(size_t maxFrames, size_t nextOp);
+    void adoptCopiesFrom(World& proto);
     RunResult res;
 
 private:
@@ -104,6 +109,12 @@ private:
     std::vector<Kept> kept;                              // C02
     uint64_t keptChecks{0};
     bool typedViews{false};
+    uint64_t plife{0};  // cfg plife: decoded packets are handed on as copies / moved / assigned objects
+    // C01 relay: decoded packets are encoded again with another frame size and decoded by a second receiver
+    std::unique_ptr<lib::Enc> relayEnc;
+    std::unique_ptr<lib::Dec> relayDec;
+    uint64_t relayCalls{0};
+    uint64_t decShadowSeen{0};
 
     // C01: per endpoint queue of packets still to be delivered
     std::map<Endpoint, std::deque<ExpPacket>> expectQueue;
@@ -167,6 +178,8 @@ private:
     void opBuild(const Item& op);
     void opProbe(const Item& op);
     void opStatUpd(const Item& op);
+    void opLife(const Item& op);
+    void relay(const std::vector<lib::PacketRef>& out, const std::vector<lib::Obs>& obs);
     void finish();
 };
 
